@@ -358,6 +358,8 @@ def explore(harness, mode="full", k=None, jobs=None, params=None, repo_root="/re
     jobs = jobs or int(os.environ.get("VERIF_MC_JOBS", "0")) or min(16, os.cpu_count() or 1)
     _G.update(harness=harness, params=params, repo_root=os.path.abspath(repo_root),
               mode=mode, k=k)
+    if os.environ.get("VERIF_MC_MAX_CAP"):         # an operator-imposed ceiling on every exploration (reported as a cap when hit)
+        time_cap = min(time_cap or 1e9, float(os.environ["VERIF_MC_MAX_CAP"]))
     deadline = (time.time() + time_cap) if time_cap else None
     total = Stats()
     # expand the choice tree level by level (in the pool) until there are enough subtrees to share out
